@@ -41,6 +41,13 @@ fn main() {
                 out.line(&format!("fp n={} p={} probes={} false_pos={} false_neg={}", n, p, pr, fp, fneg));
             }
         }
+        // C01, C07: policy lives
+        "policy" => {
+            let lives = arg_u64(&args, "--lives", 30) as usize;
+            for _ in 0..lives {
+                policy::policy_trace(&mut out, &mut rng, ops);
+            }
+        }
         other => {
             eprintln!("unknown component {}", other);
             std::process::exit(2);
